@@ -21,7 +21,7 @@ def wf_graphs(draw, spec, max_vars=6, connected=True, colonless=True, inverted_r
     consts = consts or G_CONSTS
     concepts = concepts or G_CONCEPTS
     n = draw(st.integers(1, max_vars))
-    vs = fy(draw, VARS)[:n]
+    vs = fy(draw, VARS + ['w%d' % i for i in range(max(0, n - len(VARS)))])[:n]
     vset = set(vs)
     seen = set()
     triples = []
